@@ -5,7 +5,18 @@
 
 pub struct DhtKey(pub [u8; 32]);
 pub struct NodeId(pub DhtKey);
-pub struct KademliaRoutingTable { pub node_id: NodeId }
+pub struct NodeInfo { pub id: NodeId }
+pub struct KBucket { pub nodes: Vec<NodeInfo>, pub max_size: usize }
+pub struct KademliaRoutingTable { pub buckets: Vec<KBucket>, pub node_id: NodeId, pub _k_value: usize }
+/// Error values: the text of `anyhow!(..)` messages is dropped by the extraction.
+pub struct VerifError {}
+pub type Result<T> = core::result::Result<T, VerifError>;
+
+// ASSUMED: the derived `PartialEq` of NodeId/DhtKey (newtypes over [u8; 32]) is equality of the bytes.
+impl PartialEq for NodeId {
+    #[verifier::external_body]
+    fn eq(&self, other: &NodeId) -> (r: bool) ensures r == (*self == *other) { unimplemented!() }
+}
 
 /// Bit `i` (0 = most significant bit of byte 0) of a 256-bit identifier.
 pub open spec fn bit_at(k: [u8; 32], i: int) -> bool {
@@ -50,4 +61,371 @@ proof fn lemma_xor_bits(a: [u8; 32], b: [u8; 32], d: [u8; 32], i: int)
 {
     let k = (7 - (i % 8)) as u8;
     lemma_xor_bit(a[i / 8], b[i / 8], k);
+}
+
+
+// ---------------------------------------------------------------------------------------------
+// Routing-table view and invariant (C02: "the table itself lists each peer at most once and
+// never the local node", for every history of add/remove operations).
+// ---------------------------------------------------------------------------------------------
+pub open spec fn seq_has(s: Seq<NodeInfo>, id: NodeId) -> bool {
+    exists|j: int| 0 <= j < s.len() && (#[trigger] s[j]).id == id
+}
+pub open spec fn seq_distinct(s: Seq<NodeInfo>) -> bool {
+    forall|i: int, j: int| 0 <= i < s.len() && 0 <= j < s.len() && i != j ==> (#[trigger] s[i]).id != (#[trigger] s[j]).id
+}
+
+/// Contract of KBucket::add_node: a known peer is refreshed in place (same position, same id),
+/// an unknown peer is appended when there is room, otherwise the bucket is unchanged and Err.
+pub open spec fn kb_add_post(pre: KBucket, post: KBucket, node: NodeInfo, ok: bool) -> bool {
+    &&& post.max_size == pre.max_size
+    &&& seq_has(pre.nodes@, node.id) ==> ok && post.nodes@.len() == pre.nodes@.len()
+            && (forall|j: int| 0 <= j < pre.nodes@.len() ==> (#[trigger] post.nodes@[j]).id == pre.nodes@[j].id)
+    &&& !seq_has(pre.nodes@, node.id) && pre.nodes@.len() < pre.max_size ==> ok && post.nodes@ == pre.nodes@.push(node)
+    &&& !seq_has(pre.nodes@, node.id) && pre.nodes@.len() >= pre.max_size ==> !ok && post.nodes@ == pre.nodes@
+}
+pub open spec fn filt(s: Seq<NodeInfo>, id: NodeId) -> Seq<NodeInfo> {
+    s.filter(|n: NodeInfo| n.id != id)
+}
+/// Contract of KBucket::remove_node: exactly the entries with another id remain, in order.
+pub open spec fn kb_remove_post(pre: KBucket, post: KBucket, id: NodeId) -> bool {
+    &&& post.max_size == pre.max_size
+    &&& post.nodes@ == filt(pre.nodes@, id)
+}
+
+impl KBucket {
+    // ASSUMED here (iter_mut().find(closure) / retain(closure) are outside the Verus dialect);
+    // PROVED on the real functions by Kani harnesses c02_kbucket_add_contract /
+    // c02_kbucket_remove_contract (bounded bucket length).
+    #[verifier::external_body]
+    pub fn add_node(&mut self, node: NodeInfo) -> (r: Result<()>)
+        ensures kb_add_post(*old(self), *final(self), node, r.is_ok()),
+    { unimplemented!() }
+
+    #[verifier::external_body]
+    pub fn remove_node(&mut self, node_id: &NodeId)
+        ensures kb_remove_post(*old(self), *final(self), *node_id),
+    { unimplemented!() }
+}
+
+/// One add_node step on the table: the local id is never inserted; otherwise only the bucket of
+/// the first differing bit changes, and it changes as KBucket::add_node's contract says.
+pub open spec fn table_add_step(pre: &KademliaRoutingTable, post: &KademliaRoutingTable, node: NodeInfo, ok: bool) -> bool {
+    &&& post.node_id == pre.node_id
+    &&& post.buckets@.len() == pre.buckets@.len()
+    &&& node.id == pre.node_id ==> ok && post.buckets@ == pre.buckets@
+    &&& node.id != pre.node_id ==> exists|bi: int| 0 <= bi < 256 && #[trigger] is_bucket_of(pre.node_id.0.0, node.id.0.0, bi)
+            && kb_add_post(pre.buckets@[bi], post.buckets@[bi], node, ok)
+            && (forall|b: int| 0 <= b < 256 && b != bi ==> #[trigger] post.buckets@[b] == pre.buckets@[b])
+}
+pub open spec fn table_remove_step(pre: &KademliaRoutingTable, post: &KademliaRoutingTable, id: NodeId) -> bool {
+    &&& post.node_id == pre.node_id
+    &&& post.buckets@.len() == pre.buckets@.len()
+    &&& exists|bi: int| 0 <= bi < 256 && #[trigger] is_bucket_of(pre.node_id.0.0, id.0.0, bi)
+            && kb_remove_post(pre.buckets@[bi], post.buckets@[bi], id)
+            && (forall|b: int| 0 <= b < 256 && b != bi ==> #[trigger] post.buckets@[b] == pre.buckets@[b])
+}
+
+impl KademliaRoutingTable {
+    /// `id` is listed somewhere in the table.
+    pub open spec fn lists(&self, id: NodeId) -> bool {
+        exists|b: int| 0 <= b < self.buckets@.len() && seq_has((#[trigger] self.buckets@[b]).nodes@, id)
+    }
+    /// Representation invariant: 256 buckets; every entry sits in the bucket of its first
+    /// differing bit and is not the local id; ids are distinct within a bucket; bucket <= max_size.
+    pub open spec fn wf(&self) -> bool {
+        &&& self.buckets@.len() == 256
+        &&& forall|b: int| 0 <= b < 256 ==> seq_distinct((#[trigger] self.buckets@[b]).nodes@)
+        &&& forall|b: int| 0 <= b < 256 ==> (#[trigger] self.buckets@[b]).nodes@.len() <= self.buckets@[b].max_size
+        &&& forall|b: int, j: int| 0 <= b < 256 && 0 <= j < self.buckets@[b].nodes@.len() ==>
+                is_bucket_of(self.node_id.0.0, (#[trigger] self.buckets@[b].nodes@[j]).id.0.0, b)
+                && self.buckets@[b].nodes@[j].id != self.node_id
+    }
+    /// "lists each peer at most once": two entries with the same id are the same entry.
+    pub open spec fn each_peer_once(&self) -> bool {
+        forall|b1: int, j1: int, b2: int, j2: int|
+            0 <= b1 < self.buckets@.len() && 0 <= j1 < self.buckets@[b1].nodes@.len()
+            && 0 <= b2 < self.buckets@.len() && 0 <= j2 < self.buckets@[b2].nodes@.len()
+            && (#[trigger] self.buckets@[b1].nodes@[j1]).id == (#[trigger] self.buckets@[b2].nodes@[j2]).id
+            ==> b1 == b2 && j1 == j2
+    }
+}
+
+/// The bucket of an id is a function of the two ids.
+pub proof fn lemma_bucket_unique(a: [u8; 32], b: [u8; 32], r1: int, r2: int)
+    requires is_bucket_of(a, b, r1), is_bucket_of(a, b, r2),
+    ensures r1 == r2,
+{
+    if exists|i: int| 0 <= i < 256 && differ_at(a, b, i) {
+        if r1 < r2 { assert(!differ_at(a, b, r1)); } else if r2 < r1 { assert(!differ_at(a, b, r2)); }
+    } else {
+        assert(forall|i: int| 0 <= i < 256 ==> !differ_at(a, b, i));
+    }
+}
+
+/// wf ==> each peer at most once, never the local node (the table-level clause of C02).
+pub proof fn lemma_wf_each_peer_once(t: &KademliaRoutingTable)
+    requires t.wf(),
+    ensures
+        t.each_peer_once(), // @C02/table/each_peer_at_most_once
+        !t.lists(t.node_id), // @C02/table/never_lists_local_node
+{
+    assert forall|b1: int, j1: int, b2: int, j2: int|
+        0 <= b1 < t.buckets@.len() && 0 <= j1 < t.buckets@[b1].nodes@.len()
+        && 0 <= b2 < t.buckets@.len() && 0 <= j2 < t.buckets@[b2].nodes@.len()
+        && (#[trigger] t.buckets@[b1].nodes@[j1]).id == (#[trigger] t.buckets@[b2].nodes@[j2]).id
+        implies b1 == b2 && j1 == j2 by {
+        lemma_bucket_unique(t.node_id.0.0, t.buckets@[b1].nodes@[j1].id.0.0, b1, b2);
+    }
+}
+
+
+/// Induction step for add: the invariant is kept and the listed-ids view changes exactly by the
+/// added id (whole view, not just the touched bucket).
+pub proof fn lemma_table_add(pre: &KademliaRoutingTable, post: &KademliaRoutingTable, node: NodeInfo, ok: bool)
+    requires pre.wf(), table_add_step(pre, post, node, ok),
+    ensures
+        post.wf(), // @C02/table/add_keeps_each_peer_once_and_never_local
+        forall|q: NodeId| post.lists(q) == (pre.lists(q) || (q == node.id && node.id != pre.node_id && ok)), // @C02/table/add_view_exact
+        (node.id != pre.node_id && !pre.lists(node.id) && !ok) ==> exists|b: int| 0 <= b < 256 && (#[trigger] pre.buckets@[b]).nodes@.len() >= pre.buckets@[b].max_size, // @C02/table/add_refused_only_when_bucket_full
+{
+    if node.id == pre.node_id {
+        assert(post.buckets@ == pre.buckets@);
+        assert forall|q: NodeId| post.lists(q) == pre.lists(q) by {}
+    } else {
+        let bi = choose|bi: int| 0 <= bi < 256 && #[trigger] is_bucket_of(pre.node_id.0.0, node.id.0.0, bi)
+            && kb_add_post(pre.buckets@[bi], post.buckets@[bi], node, ok)
+            && (forall|b: int| 0 <= b < 256 && b != bi ==> #[trigger] post.buckets@[b] == pre.buckets@[b]);
+        let pb = pre.buckets@[bi];
+        let qb = post.buckets@[bi];
+        // anything listing node.id in pre sits in bucket bi
+        assert forall|b: int| 0 <= b < 256 && seq_has(pre.buckets@[b].nodes@, node.id) implies b == bi by {
+            let j = choose|j: int| 0 <= j < pre.buckets@[b].nodes@.len() && (#[trigger] pre.buckets@[b].nodes@[j]).id == node.id;
+            lemma_bucket_unique(pre.node_id.0.0, node.id.0.0, b, bi);
+        }
+        // wf of the touched bucket
+        if seq_has(pb.nodes@, node.id) {
+            assert forall|j: int| 0 <= j < qb.nodes@.len() implies
+                is_bucket_of(post.node_id.0.0, (#[trigger] qb.nodes@[j]).id.0.0, bi) && qb.nodes@[j].id != post.node_id by {
+                assert(qb.nodes@[j].id == pb.nodes@[j].id);
+            }
+            assert(seq_distinct(qb.nodes@)) by {
+                assert forall|i: int, j: int| 0 <= i < qb.nodes@.len() && 0 <= j < qb.nodes@.len() && i != j implies (#[trigger] qb.nodes@[i]).id != (#[trigger] qb.nodes@[j]).id by {
+                    assert(qb.nodes@[i].id == pb.nodes@[i].id && qb.nodes@[j].id == pb.nodes@[j].id);
+                }
+            }
+        } else if pb.nodes@.len() < pb.max_size {
+            assert(qb.nodes@ == pb.nodes@.push(node));
+            assert forall|j: int| 0 <= j < qb.nodes@.len() implies
+                is_bucket_of(post.node_id.0.0, (#[trigger] qb.nodes@[j]).id.0.0, bi) && qb.nodes@[j].id != post.node_id by {
+                if j < pb.nodes@.len() { assert(qb.nodes@[j] == pb.nodes@[j]); } else { assert(qb.nodes@[j] == node); }
+            }
+            assert(seq_distinct(qb.nodes@)) by {
+                assert forall|i: int, j: int| 0 <= i < qb.nodes@.len() && 0 <= j < qb.nodes@.len() && i != j implies (#[trigger] qb.nodes@[i]).id != (#[trigger] qb.nodes@[j]).id by {
+                    if i < pb.nodes@.len() && j < pb.nodes@.len() {
+                        assert(qb.nodes@[i] == pb.nodes@[i] && qb.nodes@[j] == pb.nodes@[j]);
+                    } else if i < pb.nodes@.len() {
+                        assert(qb.nodes@[i] == pb.nodes@[i]); assert(qb.nodes@[j] == node);
+                    } else {
+                        assert(qb.nodes@[j] == pb.nodes@[j]); assert(qb.nodes@[i] == node);
+                    }
+                }
+            }
+        } else {
+            assert(qb.nodes@ == pb.nodes@);
+        }
+        assert(post.wf()) by {
+            assert forall|b: int| 0 <= b < 256 implies seq_distinct((#[trigger] post.buckets@[b]).nodes@) by {
+                if b != bi { assert(post.buckets@[b] == pre.buckets@[b]); }
+            }
+            assert forall|b: int| 0 <= b < 256 implies (#[trigger] post.buckets@[b]).nodes@.len() <= post.buckets@[b].max_size by {
+                if b != bi { assert(post.buckets@[b] == pre.buckets@[b]); }
+            }
+            assert forall|b: int, j: int| 0 <= b < 256 && 0 <= j < post.buckets@[b].nodes@.len() implies
+                is_bucket_of(post.node_id.0.0, (#[trigger] post.buckets@[b].nodes@[j]).id.0.0, b)
+                && post.buckets@[b].nodes@[j].id != post.node_id by {
+                if b != bi { assert(post.buckets@[b] == pre.buckets@[b]); }
+            }
+        }
+        // the view
+        assert forall|q: NodeId| post.lists(q) == (pre.lists(q) || (q == node.id && ok)) by {
+            // per-bucket membership
+            assert forall|b: int| 0 <= b < 256 implies
+                seq_has((#[trigger] post.buckets@[b]).nodes@, q) == (seq_has(pre.buckets@[b].nodes@, q) || (b == bi && q == node.id && ok)) by {
+                if b != bi {
+                    assert(post.buckets@[b] == pre.buckets@[b]);
+                } else {
+                    lemma_kb_add_membership(pb, qb, node, ok, q);
+                }
+            }
+            if post.lists(q) {
+                let b = choose|b: int| 0 <= b < post.buckets@.len() && seq_has((#[trigger] post.buckets@[b]).nodes@, q);
+                assert(seq_has(pre.buckets@[b].nodes@, q) || (b == bi && q == node.id && ok));
+            }
+            if pre.lists(q) {
+                let b = choose|b: int| 0 <= b < pre.buckets@.len() && seq_has((#[trigger] pre.buckets@[b]).nodes@, q);
+                assert(seq_has(post.buckets@[b].nodes@, q));
+            }
+            if q == node.id && ok {
+                assert(seq_has(post.buckets@[bi].nodes@, q));
+            }
+        }
+        if !pre.lists(node.id) && !ok {
+            assert(!seq_has(pb.nodes@, node.id));
+            assert(pb.nodes@.len() >= pb.max_size);
+        }
+    }
+}
+
+pub proof fn lemma_kb_add_membership(pb: KBucket, qb: KBucket, node: NodeInfo, ok: bool, q: NodeId)
+    requires kb_add_post(pb, qb, node, ok),
+    ensures seq_has(qb.nodes@, q) == (seq_has(pb.nodes@, q) || (q == node.id && ok)),
+{
+    if seq_has(pb.nodes@, node.id) {
+        if seq_has(qb.nodes@, q) {
+            let j = choose|j: int| 0 <= j < qb.nodes@.len() && (#[trigger] qb.nodes@[j]).id == q;
+            assert(pb.nodes@[j].id == q);
+        }
+        if seq_has(pb.nodes@, q) {
+            let j = choose|j: int| 0 <= j < pb.nodes@.len() && (#[trigger] pb.nodes@[j]).id == q;
+            assert(qb.nodes@[j].id == q);
+        }
+    } else if pb.nodes@.len() < pb.max_size {
+        assert(qb.nodes@ == pb.nodes@.push(node));
+        if seq_has(qb.nodes@, q) {
+            let j = choose|j: int| 0 <= j < qb.nodes@.len() && (#[trigger] qb.nodes@[j]).id == q;
+            if j < pb.nodes@.len() { assert(pb.nodes@[j].id == q); }
+        }
+        if seq_has(pb.nodes@, q) {
+            let j = choose|j: int| 0 <= j < pb.nodes@.len() && (#[trigger] pb.nodes@[j]).id == q;
+            assert(qb.nodes@[j].id == q);
+        }
+        assert(qb.nodes@[pb.nodes@.len() as int].id == node.id);
+    } else {
+    }
+}
+
+pub proof fn lemma_filter_props(s: Seq<NodeInfo>, id: NodeId)
+    ensures
+        forall|q: NodeId| seq_has(filt(s, id), q) == (seq_has(s, q) && q != id),
+        seq_distinct(s) ==> seq_distinct(filt(s, id)),
+        filt(s, id).len() <= s.len(),
+        forall|j: int| 0 <= j < filt(s, id).len() ==> seq_has(s, (#[trigger] filt(s, id)[j]).id),
+    decreases s.len(),
+{
+    reveal_with_fuel(Seq::filter, 1);
+    let pred = |n: NodeInfo| n.id != id;
+    let f = filt(s, id);
+    if s.len() == 0 {
+        assert(f.len() == 0);
+    } else {
+        let t = s.drop_last();
+        lemma_filter_props(t, id);
+        let ft = filt(t, id);
+        let last = s.last();
+        assert(f == if pred(last) { ft.push(last) } else { ft });
+        assert forall|q: NodeId| seq_has(f, q) == (seq_has(s, q) && q != id) by {
+            if seq_has(f, q) {
+                let j = choose|j: int| 0 <= j < f.len() && (#[trigger] f[j]).id == q;
+                if j < ft.len() {
+                    assert(ft[j].id == q); assert(seq_has(ft, q));
+                    let k = choose|k: int| 0 <= k < t.len() && (#[trigger] t[k]).id == q;
+                    assert(s[k].id == q);
+                } else {
+                    assert(f[j] == last); assert(s[s.len() - 1].id == q);
+                }
+            }
+            if seq_has(s, q) && q != id {
+                let k = choose|k: int| 0 <= k < s.len() && (#[trigger] s[k]).id == q;
+                if k < t.len() {
+                    assert(t[k].id == q); assert(seq_has(t, q)); assert(seq_has(ft, q));
+                    let j = choose|j: int| 0 <= j < ft.len() && (#[trigger] ft[j]).id == q;
+                    assert(f[j].id == q);
+                } else {
+                    assert(pred(last)); assert(f[ft.len() as int].id == q);
+                }
+            }
+        }
+        if seq_distinct(s) {
+            assert(seq_distinct(t)) by {
+                assert forall|i: int, j: int| 0 <= i < t.len() && 0 <= j < t.len() && i != j implies (#[trigger] t[i]).id != (#[trigger] t[j]).id by {
+                    assert(s[i].id != s[j].id);
+                }
+            }
+            assert(seq_distinct(f)) by {
+                assert forall|i: int, j: int| 0 <= i < f.len() && 0 <= j < f.len() && i != j implies (#[trigger] f[i]).id != (#[trigger] f[j]).id by {
+                    if i < ft.len() && j < ft.len() {
+                        assert(ft[i].id != ft[j].id);
+                    } else {
+                        // one of them is `last`, the other comes from t; last.id is not in t
+                        let o = if i < ft.len() { i } else { j };
+                        assert(seq_has(t, ft[o].id));
+                        let k = choose|k: int| 0 <= k < t.len() && (#[trigger] t[k]).id == ft[o].id;
+                        assert(s[k].id != s[s.len() - 1].id);
+                    }
+                }
+            }
+        }
+        assert forall|j: int| 0 <= j < f.len() implies seq_has(s, (#[trigger] f[j]).id) by {
+            if j < ft.len() {
+                assert(seq_has(t, ft[j].id));
+                let k = choose|k: int| 0 <= k < t.len() && (#[trigger] t[k]).id == ft[j].id;
+                assert(s[k].id == f[j].id);
+            } else {
+                assert(s[s.len() - 1].id == f[j].id);
+            }
+        }
+    }
+}
+
+/// Induction step for remove.
+pub proof fn lemma_table_remove(pre: &KademliaRoutingTable, post: &KademliaRoutingTable, id: NodeId)
+    requires pre.wf(), table_remove_step(pre, post, id),
+    ensures
+        post.wf(), // @C02/table/remove_keeps_each_peer_once_and_never_local
+        forall|q: NodeId| post.lists(q) == (pre.lists(q) && q != id), // @C02/table/remove_view_exact
+{
+    let bi = choose|bi: int| 0 <= bi < 256 && #[trigger] is_bucket_of(pre.node_id.0.0, id.0.0, bi)
+        && kb_remove_post(pre.buckets@[bi], post.buckets@[bi], id)
+        && (forall|b: int| 0 <= b < 256 && b != bi ==> #[trigger] post.buckets@[b] == pre.buckets@[b]);
+    let pb = pre.buckets@[bi];
+    let qb = post.buckets@[bi];
+    lemma_filter_props(pb.nodes@, id);
+    assert forall|b: int| 0 <= b < 256 && seq_has(pre.buckets@[b].nodes@, id) implies b == bi by {
+        let j = choose|j: int| 0 <= j < pre.buckets@[b].nodes@.len() && (#[trigger] pre.buckets@[b].nodes@[j]).id == id;
+        lemma_bucket_unique(pre.node_id.0.0, id.0.0, b, bi);
+    }
+    assert(post.wf()) by {
+        assert forall|b: int| 0 <= b < 256 implies seq_distinct((#[trigger] post.buckets@[b]).nodes@) by {
+            if b != bi { assert(post.buckets@[b] == pre.buckets@[b]); }
+        }
+        assert forall|b: int| 0 <= b < 256 implies (#[trigger] post.buckets@[b]).nodes@.len() <= post.buckets@[b].max_size by {
+            if b != bi { assert(post.buckets@[b] == pre.buckets@[b]); }
+        }
+        assert forall|b: int, j: int| 0 <= b < 256 && 0 <= j < post.buckets@[b].nodes@.len() implies
+            is_bucket_of(post.node_id.0.0, (#[trigger] post.buckets@[b].nodes@[j]).id.0.0, b)
+            && post.buckets@[b].nodes@[j].id != post.node_id by {
+            if b != bi {
+                assert(post.buckets@[b] == pre.buckets@[b]);
+            } else {
+                assert(seq_has(pb.nodes@, qb.nodes@[j].id));
+                let k = choose|k: int| 0 <= k < pb.nodes@.len() && (#[trigger] pb.nodes@[k]).id == qb.nodes@[j].id;
+                assert(is_bucket_of(pre.node_id.0.0, pre.buckets@[bi].nodes@[k].id.0.0, bi));
+            }
+        }
+    }
+    assert forall|q: NodeId| post.lists(q) == (pre.lists(q) && q != id) by {
+        assert forall|b: int| 0 <= b < 256 implies
+            seq_has((#[trigger] post.buckets@[b]).nodes@, q) == (seq_has(pre.buckets@[b].nodes@, q) && q != id) by {
+            if b != bi { assert(post.buckets@[b] == pre.buckets@[b]); }
+        }
+        if post.lists(q) {
+            let b = choose|b: int| 0 <= b < post.buckets@.len() && seq_has((#[trigger] post.buckets@[b]).nodes@, q);
+            assert(seq_has(pre.buckets@[b].nodes@, q));
+        }
+        if pre.lists(q) && q != id {
+            let b = choose|b: int| 0 <= b < pre.buckets@.len() && seq_has((#[trigger] pre.buckets@[b]).nodes@, q);
+            assert(seq_has(post.buckets@[b].nodes@, q));
+        }
+    }
 }
